@@ -8,3 +8,21 @@ import FindVerif.TieTables
 #print axioms FV.TieTables.placeholder
 #print axioms FV.TieTables.snippetBody
 #print axioms FV.TieTables.compileTest
+#print axioms FV.TieTables.formatCmp
+#print axioms FV.TieTables.formatCmp2
+#print axioms FV.TieTables.sizeMatching
+#print axioms FV.TieTables.compilePermCheck
+#print axioms FV.TieTables.compileAction
+#print axioms FV.TieTables.scheme
+#print axioms FV.TieTables.compile
+#print axioms FV.TieTables.hasAction
+#print axioms FV.TieTables.complexFrames
+#print axioms FV.TieTables.compileExpr
+#print axioms FV.TieTables.explainTable
+#print axioms FV.TieTables.contextStep
+#print axioms FV.TieTables.dispatchDecision
+#print axioms FV.TieTables.runOptionsUpdate
+#print axioms FV.TieTables.schemeEscape
+#print axioms FV.TieTables.isPattern
+#print axioms FV.TieTables.terminatorEscape
+#print axioms FV.TieTables.templateEscape
